@@ -27,8 +27,28 @@ pub(crate) fn escape_html_quote(s: &str) -> Cow<'_, str> {
     })
 }
 
+/// Quote a string as a string literal that both JavaScript and the template expression parser read back.
+///
+/// Only escapes that mean the same in both are used ( `\n` , `\xHH` , `\uHHHH` ...),
+/// and never an escape which changes its meaning with the next character (such as `\0` before a digit).
 pub(crate) fn gen_lit_str(s: &str) -> String {
-    format!("{:?}", s)
+    use std::fmt::Write;
+    let mut ret = String::with_capacity(s.len() + 2);
+    ret.push('"');
+    for c in s.chars() {
+        match c {
+            '"' => ret.push_str("\\\""),
+            '\\' => ret.push_str("\\\\"),
+            '\n' => ret.push_str("\\n"),
+            '\r' => ret.push_str("\\r"),
+            '\t' => ret.push_str("\\t"),
+            '\u{2028}' | '\u{2029}' => write!(ret, "\\u{:04x}", c as u32).unwrap(),
+            c if (c as u32) < 0x20 || c == '\x7f' => write!(ret, "\\x{:02x}", c as u32).unwrap(),
+            c => ret.push(c),
+        }
+    }
+    ret.push('"');
+    ret
 }
 
 pub(crate) fn dash_to_camel(s: &str) -> CompactString {
